@@ -120,43 +120,4 @@ def run(ctx, chk):
                     chk.check(R7, in_split and split_ok and s["from"] == "u32" and s["to"] == "u16", "%s:%s->%s" % (fnm, s["from"], s["to"]),
                               "narrowing cast %s -> %s in %s" % (s["from"], s["to"], nm), where(s["span"]), key="C01:narrow:%s:%s->%s" % (fnm, s["from"], s["to"]))
     chk.floor(R7, "narrowing casts audited", nn, 2)
-    # the rest of the hand-written crate: every other narrowing integer cast is one of the reviewed ones, or its operand is provably small
-    REVIEWED = {("rspirv/binary/assemble.rs", "u64", "u32"): (2, "the two halves of a 64-bit literal (C02 R-WORDS evaluates the encoding)"),
-                ("rspirv/binary/assemble.rs", "usize", "u32"): (1, "word count of one instruction: the SPIR-V limit of 65535 words per instruction is the caller's obligation"),
-                ("rspirv/dr/constructs.rs", "u32", "u16"): (1, "generator version: masked with 0xffff (C07 S6-HEADER evaluates it)"),
-                ("rspirv/grammar/syntax.rs", "u32", "u16"): (1, "table opcode of a row: every Op discriminant fits 16 bits (C09 R-TAB-1)"),
-                ("rspirv/sr/storage.rs", "usize", "u32"): (2, "storage index: 2^32 elements exceed memory")}
-    seen_n = {}
-    from . import rangex
-    for p, fn in mir.fns.items():
-        nm = mir_name(p)
-        if nm.startswith("binary::parser::") or nm.startswith("dr::loader::") or nm.startswith("binary::decoder::") or nm.startswith("binary::tracker::"):
-            continue
-        for b in fn["blocks"]:
-            for s in b["s"]:
-                if s["f"] == "cast" and s["ck"] == "IntToInt" and s["from"] in width and s["to"] in width and width[s["to"]] < width[s["from"]]:
-                    fl = s["span"]["file"]
-                    if "rustlib" in fl or fl.startswith("/") or "autogen" in fl:
-                        continue
-                    seen_n.setdefault((fl, s["from"], s["to"]), []).append((nm, where(s["span"])))
-    for key_, sites_ in sorted(seen_n.items()):
-        allowed = REVIEWED.get(key_, (0, ""))[0]
-        if len(sites_) <= allowed:
-            chk.ok(R7, "reviewed:%s:%s->%s" % key_)
-            continue
-        # more casts of this kind than reviewed: accept only if every cast expression in the functions concerned has a provably small operand
-        okall = True
-        for nm_, w_ in sites_:
-            fname = nm_.split("::{closure")[0].split("::")[-1]
-            cands = [f_ for m_ in ctx.rspirv.modules() for f_ in ctx.rspirv.items(m_, "fn") if f_["name"] == fname]
-            cands += [x for m_ in ctx.rspirv.modules() for im in ctx.rspirv.items(m_, "impl") for x in im["items"] if x.get("kind") == "fn" and x["name"] == fname]
-            small = False
-            if len(cands) == 1:
-                env_, lens_ = rangex.intervals(cands[0])
-                casts_ = [n_ for n_ in walk(cands[0]["body"]) if n_[0] == "cast" and n_[2].replace(" ", "") in width]
-                small = bool(casts_) and all(rangex.interval(n_[1], env_, lens_)[1] < 2 ** width[n_[2].replace(" ", "")] for n_ in casts_
-                                             if width[n_[2].replace(" ", "")] < 64)
-            okall = okall and small
-        chk.check(R7, okall, "narrowing:%s:%s->%s" % key_, "%d narrowing casts %s -> %s in %s (%d reviewed): %s; a value that does not fit is silently truncated" % (
-            len(sites_), key_[1], key_[2], key_[0], allowed, [x[1] for x in sites_][:4]), sites_[-1][1], key="C01:narrow-crate:%s:%s->%s" % key_)
     chk.analysed.update({"loader_sinks": sorted(sinks), "assembler_paths": emitted, "narrowing_casts": nn})
